@@ -1059,6 +1059,18 @@ impl Prop for C18 {
             pre.push(Op::Rm(dir.clone(), true));
             ops = pre;
         }
+        if rng.chance(1, 20) {
+            // a directory whose name looks like a file's (`h h.txt/`), then a file moved or copied onto that name
+            let d = gen_file(rng);
+            let f = gen_file(rng);
+            if !too_long(&d) && !too_long(&f) && f != d && !f.starts_with(&format!("{}/", d)) {
+                let at = rng.usize(ops.len() + 1);
+                let third = if rng.chance(2, 3) { Op::Mv(f.clone(), d.clone()) } else { Op::Cp(f.clone(), d.clone()) };
+                for (k, op) in [Op::Mkdir(d.clone()), Op::Write(f.clone(), "moved".to_string()), third].into_iter().enumerate() {
+                    ops.insert(at + k, op);
+                }
+            }
+        }
         let torn = if rng.chance(1, 5) {
             let writes: Vec<usize> = ops.iter().enumerate().filter(|(_, o)| matches!(o, Op::Write(_, t) | Op::Append(_, t) if t.len() > 3)).map(|(i, _)| i).collect();
             if writes.is_empty() { None } else { Some((*rng.pick(&writes), 1 + rng.below(3))) }
